@@ -50,6 +50,11 @@ std::string hex(std::string_view s, std::size_t n)
 
 using namespace c19;
 
+// ASan defaults for this binary (keys given in ASAN_OPTIONS by the driver still win). Recording a
+// 30-frame stack for every malloc/free made a shard retain ~150 KiB per case in ASan's stack depot
+// (2.4 GiB after 15 000 construct cases) and tripled the run time; error stacks are not affected.
+extern "C" const char *__asan_default_options() { return "malloc_context_size=3:quarantine_size_mb=32"; }
+
 namespace
 {
 struct Quiet
